@@ -26,6 +26,7 @@ ALL_FAULTS = '{"lost", "fail", "timeout", "late"}'
 # name -> (members, InitView, InitUnhealthy, InitApprovals, AllowedVia) operators of PledgeMC.tla
 CONF = {
     "same3": (3, "Same3View", "Empty", "Empty", "AllVia"),
+    "same4": (4, "Same3View", "Empty", "Empty", "AllVia"),
     "stale3": (3, "Stale3View", "Empty", "Empty", "AllVia"),
     "stale3b": (3, "Stale3bView", "Empty", "Empty", "AllVia"),
     "stale5": (5, "Stale5View", "Stale5Unhealthy", "Stale5Approvals", "Stale5Via"),
@@ -579,6 +580,8 @@ def run(ctx):
     # 1. design level ------------------------------------------------------------------
     mc("same3_f", "same3", 3 if thorough else 2, '{"lost", "fail"}', False, False, False)
     mc("same3_j", "same3", 2, "{}", True, True, False, maxlearn=2 if thorough else 1)
+    if thorough:
+        mc("same4_n", "same4", 2, "{}", False, False, False)
     mc("stale3", "stale3", 2, "{}", False, False, True, workers=2)
     mc("stale5", "stale5", 3, "{}", False, False, True, workers=2)
 
@@ -608,7 +611,7 @@ def run(ctx):
     d5[0]["id"] = "stale5_directed"
     directed = [d5[0], story5()]
     # 2b. one schedule per distinct duplicate-key state of the stale configurations
-    for name, conf, mp, jg in (("dup3", "stale3", 2, False),) + ((("dup3j", "stale3", 2, True), ("dup5f", "stale5free", 3, False)) if thorough else ()):
+    for name, conf, mp, jg in (("dup3", "stale3", 2, False),) + ((("dup3j", "stale3", 2, True), ("dup5all", "stale5", 3, False)) if thorough else ()):
         ds, _ = gen(name, conf, mp, "{}", jg, jg, "DupPrint", True, 80, limit=150 if thorough else 40)
         if not ds:
             raise vlib.Inconclusive("no duplicate-key schedule generated for %s" % name)
@@ -643,6 +646,14 @@ def run(ctx):
     # the directed 5-member schedules must be executed to the end for their verdict to mean anything
     incomplete = ["%s: %s" % (sc["id"], row.get("stalled") or row.get("diverged"))
                   for sc, row in list(zip(directed, rows_d))[:2] if row.get("stalled") or row.get("diverged")]
+
+    # the two directed schedules are kept as replay artifacts of the known finding
+    if not ctx.replay_path:
+        for sc, row in list(zip(directed, rows_d))[:2]:
+            if duplicates(sc, row):
+                ctx.save_replay({"scenario": sc, "responses": row["responses"], "property": "C11",
+                                 "note": "directed stale-view schedule; both real pledge.Pledge calls return the same key",
+                                 "cmd": "python3 tools/verif.py replay C11 <this file>"}, name="known-%s.json" % sc["id"])
 
     # 4. judge -------------------------------------------------------------------------
     drift, diverged, stalled = [], [], []
@@ -757,4 +768,6 @@ def selftest(ctx):
     corrupt("foreign_cluster_key", lambda t: t[idx(lambda e: e["ev"] == "admitted")].update(ck="other"))
     corrupt("admitted_other_key", lambda t: t[idx(lambda e: e["ev"] == "admitted")].update(k=9))
     print("selftest: %s" % ("ok" if not failures else "%d corruptions accepted" % failures))
+    import shutil
+    shutil.rmtree(ctx.build, ignore_errors=True)
     return 1 if failures else 0
